@@ -1,0 +1,9 @@
+//go:build !verif
+
+package server
+
+import "github.com/zilliztech/milvus-cdc/server/model/meta"
+
+func verifNewReplicateEntity(*MetaCDC, *meta.TaskInfo) (*ReplicateEntity, bool, error) {
+	return nil, false, nil
+}
